@@ -48,6 +48,32 @@ type Case struct {
 	// the transaction, or an update of the caller's quote object with AddQuote. It never edits
 	// the transaction. Calls beyond len(Acts) do nothing.
 	Acts []Act `json:"acts,omitempty"`
+	// RepBatch hands batch number RepAt out that many more times (every replica with its own
+	// txids) before the supplier history goes on: a funding with hundreds or thousands of
+	// supplier calls is stored as a number
+	RepBatch int `json:"rep_batch,omitempty"`
+	RepAt    int `json:"rep_at,omitempty"`
+}
+
+// expandBatches materialises RepBatch.
+func expandBatches(batches [][]U, at, n int) [][]U {
+	if n <= 0 || n > 5000 || at < 0 || at >= len(batches) {
+		return batches
+	}
+	out := make([][]U, 0, len(batches)+n)
+	out = append(out, batches[:at+1]...)
+	for j := 1; j <= n; j++ {
+		b := make([]U, len(batches[at]))
+		for k, u := range batches[at] {
+			u.TxID = append(pbt.Hex{}, u.TxID...)
+			if len(u.TxID) == 32 {
+				u.TxID[0], u.TxID[1], u.TxID[2] = byte(j), byte(j>>8)^0x96, byte(k)
+			}
+			b[k] = u
+		}
+		out = append(out, b)
+	}
+	return append(out, batches[at+1:]...)
 }
 
 // Act is one callback action.
@@ -103,6 +129,7 @@ func actLib(c Case, i int, q *ref.FeeQuote, tx *bt.Tx, lq *ref.FeeQuoteLib) erro
 }
 
 func expand(c Case) Case {
+	c.Batches, c.RepBatch = expandBatches(c.Batches, c.RepAt, c.RepBatch), 0
 	n := len(c.Tx.In)
 	if c.RepPrior <= 0 || c.RepPrior > 1000 || n == 0 {
 		return c
@@ -441,6 +468,14 @@ func judgeFund(ctx *pbt.Ctx, c Case, want modelResult, tx *bt.Tx, lq *ref.FeeQuo
 	ctx.Label("result=" + want.class)
 	ctx.Label(feeTagLabel(c.Quote))
 	ctx.Labelf("calls=%d", min(len(want.deficits), 6))
+	switch n := len(want.deficits); {
+	case n > 1000:
+		ctx.Label("supplier-calls>1000")
+	case n == 1000:
+		ctx.Label("supplier-calls=1000")
+	case n >= 250:
+		ctx.Label("supplier-calls=250..999")
+	}
 	ctx.Labelf("prior-inputs=%d", min(len(c.Tx.In), 5))
 	if len(c.Tx.In) < 253 && want.class == resOK && len(want.final.In) >= 253 {
 		ctx.Label("input-count-crosses-253-while-funding")
@@ -731,7 +766,73 @@ func genCase(t *rapid.T) Case {
 		stored[i].PrevSats = c.Tx.In[i].PrevSats
 	}
 	c.Tx.In, c.RepPrior = stored, rep
+	// very many supplier calls (the statement puts no bound on their number), stored as a count
+	switch k := rapid.IntRange(0, 11999).Draw(t, "long_run"); {
+	case k >= 11940: // a run of empty batches somewhere in the history
+		longRunEmpty(&c, rapid.IntRange(0, len(c.Batches)).Draw(t, "long_at"), rapid.SampledFrom(longRunCounts).Draw(t, "long_n"))
+	case k == 5003 && rep == 0: // a run of small UTXOs every one of which is needed
+		longRunSmall(&c, rapid.SampledFrom(longRunCounts[:4]).Draw(t, "long_n"), gen.Bytes(t, 32, "long_txid"), gen.Bytes(t, 20, "long_pkh"))
+	}
 	return c
+}
+
+var longRunCounts = []int{250, 999, 1000, 1001, 1500, 3000}
+
+// longRunEmpty inserts, before batch number at, a run of n supplier calls answered with an
+// empty batch (the deficit stays what it is, the loop has to go on asking).
+func longRunEmpty(c *Case, at, n int) {
+	b := append([][]U{}, c.Batches[:at]...)
+	b = append(b, []U{})
+	c.Batches = append(b, c.Batches[at:]...)
+	c.RepAt, c.RepBatch = at, n-1
+}
+
+// longRunSmall replaces the supplier history by n+1 calls each answered with one small UTXO
+// that is worth 10 satoshis more than the fee its own input adds at most - every one of them is
+// needed, none covers - followed by one covering UTXO. An output worth more than the whole run
+// is added so that the deficit lasts.
+func longRunSmall(c *Case, n int, txid, pkh []byte) {
+	perInput := uint64(160*c.Quote.Std.Sat/c.Quote.Std.Bytes) + 1
+	small := perInput + 10
+	c.Tx.Out = append(c.Tx.Out, ref.Out{Sats: uint64(n+2) * small, Script: ref.FeeP2PKH(pkh)})
+	u := U{TxID: append(pbt.Hex{}, txid...), Vout: 1, Sats: small, Script: ref.FeeP2PKH(pkh), Seq: 0xffffffff}
+	last := u
+	last.TxID = append(pbt.Hex{}, txid...)
+	last.TxID[31] ^= 0xff
+	last.Sats = 1 << 50
+	for _, o := range c.Tx.Out {
+		last.Sats += o.Sats % (1 << 50)
+	}
+	c.Batches, c.Acts = [][]U{{u}, {last}}, nil
+	c.RepAt, c.RepBatch = 0, n
+}
+
+// enumLongRuns is the fixed set of fundings with 250 .. 3001 supplier calls.
+func enumLongRuns(yield func(Case)) {
+	h := func(b byte, n int) []byte { return bytes.Repeat([]byte{b}, n) }
+	for qi, std := range []ref.FeeUnit{{Sat: 1, Bytes: 1}, {Sat: 5, Bytes: 100}} {
+		base := Case{Tx: ref.Tx{Version: 1, Out: []ref.Out{{Sats: 1000, Script: ref.FeeP2PKH(h(0x33, 20))}}},
+			Quote: ref.FeeQuote{Std: std, Data: ref.FeeUnit{Sat: 1, Bytes: 2}, StdRelay: ref.FeeUnit{Sat: 1, Bytes: 1}, DataRelay: ref.FeeUnit{Sat: 1, Bytes: 1}}}
+		cover := U{TxID: h(0x44, 32), Vout: 2, Sats: 1 << 40, Script: ref.FeeP2PKH(h(0x55, 20)), Seq: 0xffffffff}
+		for ni, n := range longRunCounts {
+			c := base
+			c.Tx.Out = append([]ref.Out{}, base.Tx.Out...)
+			c.End = []string{"exhausted", "error", "exhausted-wrapped"}[(ni+qi)%3]
+			c.Batches = [][]U{{cover}}
+			if (ni+qi)%2 == 1 {
+				c.Batches = nil // the run ends in the supplier's terminator instead of a covering batch
+			}
+			longRunEmpty(&c, 0, n)
+			yield(c)
+			if n <= 1001 {
+				c := base
+				c.Tx.Out = append([]ref.Out{}, base.Tx.Out...)
+				c.End = "exhausted"
+				longRunSmall(&c, n, h(byte(0x60+ni), 32), h(0x66, 20))
+				yield(c)
+			}
+		}
+	}
 }
 
 // genBatches draws a supplier history for a transaction that stands as start: values are
@@ -825,5 +926,7 @@ func TestFund(t *testing.T) {
 		Name: "fund", Quick: 200000, Thorough: 12000000,
 		Gen:   genCase,
 		Check: check,
+		EnumDesc: "fundings with very many supplier calls: a run of 250 / 999 / 1000 / 1001 / 1500 / 3000 calls answered with an empty batch, followed by a covering batch or by the supplier's terminator, and a run of 251 / 1000 / 1001 / 1002 calls each answered with one small UTXO all of which are needed, followed by a covering UTXO; at 1 sat/byte and at 5 sat/100 bytes (20 cases)",
+		Enum:     func(_ string, yield func(Case)) { enumLongRuns(yield) },
 	})
 }
